@@ -193,6 +193,23 @@ pub fn c05(cx: &mut Ctx) {
         }
         cx.op(&format!("resp {}", hx(&enc)));
     }
+    // heads that are NOT redirects but carry a Location field (201 Created, 200, 404): every cut position
+    for i in 0..(if cx.thorough { 60 } else { 12 }) {
+        let mut r = cx.case("loc");
+        let mut h = gen_head(&mut r, 2, false);
+        h.status = *r.pick(&[200u16, 201, 202, 404, 299, 400, 503]);
+        let loc = Field { name: (if i % 2 == 0 { "Location" } else { "LOCATION" }).as_bytes().to_vec(), pre: b" ".to_vec(), value: b"/created/7".to_vec(), post: vec![] };
+        let pos = r.below(h.fields.len() + 1);
+        h.fields.insert(pos, loc);
+        let enc = h.enc();
+        cx.meta(&h.meta());
+        if !fresh_recv(cx) { continue; }
+        for p in 0..enc.len() {
+            let res = cx.op(&format!("resp {}", hx(&enc[..p])));
+            if res != "resp 0 none" && !fresh_recv(cx) { break; }
+        }
+        cx.op(&format!("resp {}", hx(&enc)));
+    }
     // every 3xx head cut at every position after its Location line (known finding D10 lives here)
     for i in 0..(if cx.thorough { 120 } else { 24 }) {
         let mut r = cx.case("redir");
@@ -326,7 +343,7 @@ fn finish_exchange(cx: &mut Ctx, stream: &[u8], mut soff: usize, body_len: usize
                 let res = cx.op(&format!("resp {}", hx(&stream[soff.min(stream.len())..])));
                 let p: Vec<&str> = res.split(' ').collect();
                 if p[0] != "resp" { return; }
-                soff += p[1].parse::<usize>().unwrap();
+                soff += p[1].parse::<usize>().unwrap_or(0);
                 if p[2] != "none" { cx.op("canproceed"); cx.op("proceed"); }
                 else if p[1] == "0" { return; }
             }
@@ -334,7 +351,7 @@ fn finish_exchange(cx: &mut Ctx, stream: &[u8], mut soff: usize, body_len: usize
                 let res = cx.op(&format!("bread {} 1000", hx(&stream[soff.min(stream.len())..])));
                 let p: Vec<&str> = res.split(' ').collect();
                 if p[0] != "bytes" { return; }
-                soff += p[1].parse::<usize>().unwrap();
+                soff += p[1].parse::<usize>().unwrap_or(0);
                 let can = cx.op("canproceed");
                 if can == "bool true" { cx.op("proceed"); } else { return; }
             }
@@ -347,7 +364,9 @@ fn finish_exchange(cx: &mut Ctx, stream: &[u8], mut soff: usize, body_len: usize
 
 pub fn c11(cx: &mut Ctx) {
     let reasons: [&str; 5] = [" Continue", "", " ", " Go\tOn \u{e9}", " continue please"];
-    let finals: [&str; 6] = ["HTTP/1.1 403 Forbidden\r\n\r\n", "HTTP/1.1 403 Forbidden\r\nContent-Length: 0\r\n\r\n", "HTTP/1.1 200 OK\r\nContent-Length: 2\r\n\r\nhi", "HTTP/1.0 417 Expectation Failed\r\nX: y\r\nContent-Length: 0\r\n\r\n", "HTTP/1.1 302 Found\r\nLocation: /x\r\nContent-Length: 0\r\n\r\n", "HTTP/1.1 204\r\n\r\n"];
+    // the last three: informational statuses other than 100 are refusals too (and have no body)
+    let finals: [&str; 9] = ["HTTP/1.1 403 Forbidden\r\n\r\n", "HTTP/1.1 403 Forbidden\r\nContent-Length: 0\r\n\r\n", "HTTP/1.1 200 OK\r\nContent-Length: 2\r\n\r\nhi", "HTTP/1.0 417 Expectation Failed\r\nX: y\r\nContent-Length: 0\r\n\r\n", "HTTP/1.1 302 Found\r\nLocation: /x\r\nContent-Length: 0\r\n\r\n", "HTTP/1.1 204\r\n\r\n",
+        "HTTP/1.1 101 Switching Protocols\r\n\r\n", "HTTP/1.1 103 Early Hints\r\nLink: </x>\r\n\r\n", "HTTP/1.1 199\r\n\r\n"];
     // (1) interim 100 at every prefix at which the caller looks, then either path
     for (ri, reason) in reasons.iter().enumerate() {
         for reqv in ["HTTP/1.1", "HTTP/1.0"] {
@@ -366,12 +385,12 @@ pub fn c11(cx: &mut Ctx) {
                         cx.op("keep100");
                         let res = cx.op(&format!("read100 {}", hx(&stream[..p.min(stream.len())])));
                         let mut soff = 0;
-                        if let Some(n) = res.strip_prefix("count ") { soff = n.parse().unwrap(); }
+                        if let Some(n) = res.strip_prefix("count ") { soff = n.parse().unwrap_or(0); }
                         cx.op("keep100");
                         if !giveup && soff == 0 && p < stream.len() {
                             // look again with everything
                             let res = cx.op(&format!("read100 {}", hx(&stream)));
-                            if let Some(n) = res.strip_prefix("count ") { soff = n.parse().unwrap(); }
+                            if let Some(n) = res.strip_prefix("count ") { soff = n.parse().unwrap_or(0); }
                             cx.op("keep100");
                         }
                         cx.op("proceed");
@@ -427,7 +446,7 @@ pub fn c11(cx: &mut Ctx) {
                             let res = cx.op(&format!("resp {}", hx(&stream[soff..upto.min(stream.len())])));
                             let p: Vec<&str> = res.split(' ').collect();
                             if p[0] != "resp" { break; }
-                            soff += p[1].parse::<usize>().unwrap();
+                            soff += p[1].parse::<usize>().unwrap_or(0);
                             if p[2] != "none" { cx.op("proceed"); break; }
                             if upto >= stream.len() && p[1] == "0" { break; }
                             upto = (upto + 1).max(soff + 1);
